@@ -93,7 +93,7 @@ def run(ctx):
     for part in parts:
         outs += part
     for (ci, k), o in zip(where, outs):
-        expected[(ci, k)] = re.findall(r'"([^"]*)"', o)
+        expected[(ci, k)] = [exe.canon_doubles(x) for x in re.findall(r'"([^"]*)"', o)]
         if len(expected[(ci, k)]) != nworlds:
             ctx.broke("K", "model/Sem.v evaluation", "the reference evaluator gave no result list for a program: %s" % o[:600])
             return
